@@ -3,7 +3,6 @@ from . import engine as E
 from . import runrules as R
 from . import rewriterules as W
 from . import stalerules as S
-from .common import rule_pruning_preserves_paths
 
 
 def check(ctx):
